@@ -107,6 +107,19 @@ def run(ctx):
     # plants / CHP units with fuel: which binary variables exist depends on several parameters (start costs, run times, start fuel,
     # consumption when on); c, l, u, rows and mapping must agree on them
     specs += gen.gen_many_plants(ctx.seed, n // 3, dict(CFG, freqs=['h'], units=['h'], tzs=[None], T=(4, 8), p_unaligned_end=0.0, p_fuel=0.9, p_profile=0.2, p_gap=0.0, p_cap_dict=0.0), 'c07p_')
+    # node names of different lengths (second node of a two-node storage / heat and fuel node of a CHP longer than the first one)
+    from props.C09 import rename_assets, asset_names, node_names
+    import random as _rn
+    nml = gen.gen_many(ctx.seed, n // 4, dict(CFG, nodes=(2, 3), p_coarse=0.0, p_periodic=0.0, p_gap=0.0, kinds={'Storage': 4, 'Transport': 2, 'MultiCommodityContract': 1, 'SimpleContract': 1}), 'c07nl_')
+    nml += gen.gen_many_plants(ctx.seed, n // 4, dict(CFG, freqs=['h'], units=['h'], tzs=[None], T=(4, 7), p_unaligned_end=0.0, p_fuel=0.8, p_chp=0.8, p_profile=0.0, p_gap=0.0, p_cap_dict=0.0), 'c07nlp_')
+    for sp in nml:
+        r_ = _rn.Random(str(sp['seed']) + '/len')
+        nn = node_names(sp['assets'])
+        pool = ['el', 'heat_node', 'gas_supply_node', 'x', 'north_hub'][:max(len(nn), 1)]
+        if r_.random() < 0.3:
+            pool = pool[::-1]
+        rename_assets(sp['assets'], {a: a for a in asset_names(sp['assets'])}, dict(zip(nn, pool)))
+    specs += nml
     for sp in specs:
         sp['opts']['no_solve'] = True
     # split set-up: every interval problem and the joint mapping must be as faithful as a single problem
